@@ -6,6 +6,8 @@ and side) is executed and must raise the documented error and leave the full sna
 """
 import math
 
+import numpy as np
+
 from mc.engine import hbfs, par
 from mc.engine.report import Violation
 from mc.engine.seams import Canon, public_snapshot, new_model
@@ -304,6 +306,32 @@ class Harness:
                     if Envs.PositionComponent in w.agents[k]:
                         raise Violation(f'rejected placement left a PositionComponent on {k}')
                     outcomes.append(('oob', p))
+        if self.spec:
+            # in-range placements whose coordinates are numbers of unusual types: taken (then the probe is resident
+            # and can leave again) or refused - either way without a trace
+            import decimal
+            import fractions
+            zero = [decimal.Decimal(0), fractions.Fraction(0), np.float32(0), np.int8(0), np.float64(0.0), False]
+            narg = len(self.spec[2])
+            for z in zero:
+                before = self.snapshot(w)
+                try:
+                    env.add_agent(w.agents['probe'], *([z] * narg))
+                except Exception as e:      # noqa
+                    if self.snapshot(w) != before:
+                        raise Violation(f'placement of the probe at coordinates of type {type(z).__name__} failed with '
+                                        f'{type(e).__name__} and left a trace', expected='snapshot unchanged',
+                                        observed=_diff(before, self.snapshot(w)))
+                    outcomes.append(('odd', type(z).__name__, 'refused'))
+                    continue
+                if env.get_agent('probe') is not w.agents['probe'] or Envs.PositionComponent not in w.agents['probe']:
+                    raise Violation(f'placement of the probe at coordinates of type {type(z).__name__} returned normally '
+                                    f'but the probe is not resident with a position')
+                env.remove_agent('probe')
+                if self.snapshot(w) != before:
+                    raise Violation(f'the probe placed at coordinates of type {type(z).__name__} and removed again left a '
+                                    f'trace', expected='snapshot unchanged', observed=_diff(before, self.snapshot(w)))
+                outcomes.append(('odd', type(z).__name__, 'taken'))
         w.last = (tuple(w.ref), len(outcomes))
 
     def _key(self, w, a):
